@@ -55,7 +55,10 @@ function getPathAndLine (sourceMap, filename, line, column) {
   try {
     if (sourceMap) {
       const filePath = getFilePathFromName(filename)
-      const { originalSource, originalLine, originalColumn } = sourceMap.findEntry(line - 1, column - 1)
+      // positions are 1-based: without a column (0) the whole line is meant, not the place before its
+      // first character, whose closest mapping is the end of the previous line
+      const { originalSource, originalLine, originalColumn } =
+        sourceMap.findEntry(line - 1, column > 0 ? column - 1 : Infinity)
       return {
         // an absolute source stands for itself (like an absolute sourceMappingURL above)
         path: path.isAbsolute(originalSource) ? originalSource : path.join(filePath, originalSource),
